@@ -16,6 +16,7 @@ checks_for() {
 for d in seeded/${pat}*; do
   [ -f $d/patch.diff ] || continue
   id=$(basename $d); pid=${id%%-*}
-  ./tools/eval_mutant.py $d/patch.diff $tier $(checks_for $pid) > $d/result_$tier.txt 2>&1
+  pf=$d/patch.diff; [ -f $d/patch_rebased.diff ] && pf=$d/patch_rebased.diff
+  ./tools/eval_mutant.py $pf $tier $(checks_for $pid) > $d/result_$tier.txt 2>&1
   echo "$id -> $(grep CAUGHT-BY $d/result_$tier.txt)"
 done
